@@ -48,7 +48,7 @@ def items(tier):
     q = tier == "quick"
     out = []
     temps = ["poisson-linsolve", "linsolve-dense", "linsolve-classchange", "linsolve-diagchange", "linsolve-patternchange", "overhang", "densityfilter", "filterconv",
-             "sysofeq", "statcond", "assemble-const", "aggregation-active", "eigensolve-sparse", "eigensolve-dense",
+             "sysofeq", "statcond", "assemble-const", "aggregation-active", "aggregation-scaled", "eigensolve-sparse", "eigensolve-dense",
              "eigensolve-dense-classchange", "assemble-realthencomplex"]
     if not q:
         temps += ["linsolve-dense-lda", "linsolve-classchange-lda", "linsolve-dense3"]
@@ -320,6 +320,15 @@ def make(V, template, ncyc=3):
 
         def setter(k):
             sx.state = V.reals("x%d" % k, 3, positive=True)
+        return Net(net, [sx], list(m.sig_out), [sx] + list(m.sig_out), setter)
+    if template == "aggregation-scaled":
+        # undamped AggScaling (damping 0): the correction factor refers to the current input only - no memory
+        sx = pym.Signal("x")
+        m = pym.KSFunction(sx, rho=V.real("rho", positive=True, default=1.5), scaling=pym.AggScaling("max"))
+        net = pym.Network(m)
+
+        def setter(k):
+            sx.state = V.reals("x%d" % k, 2, positive=True)
         return Net(net, [sx], list(m.sig_out), [sx] + list(m.sig_out), setter)
     raise ValueError(template)
 
